@@ -35,11 +35,19 @@ type vfC06Case struct {
 	// UpReply is what the upstream says when it is asked: "data" (the
 	// fixture), "nodata" (NOERROR without records) or "nxdomain".
 	UpReply string
+	// Local: the name lies under the local domain ("lan") of a server whose
+	// DHCP server is enabled and has no lease of that name; the client is in
+	// a private network.
+	Local bool
 }
 
 func vfC06Draw(t *rapid.T) (c *vfC06Case) {
 	c = &vfC06Case{}
 	base := vfDrawDomain(t, "base")
+	c.Local = rapid.IntRange(0, 3).Draw(t, "local_domain_with_dhcp") == 0
+	if c.Local {
+		base = "lan"
+	}
 	name := "src." + base
 	// the target lies outside the (wildcard) key's domain: a wildcard that
 	// covers its own target is decided by the table check, not here
@@ -71,6 +79,12 @@ func vfC06Draw(t *rapid.T) (c *vfC06Case) {
 		"addr_same_family", "addr_other_family_only", "addr_both", "cname_unknown_target", "cname_target_with_addr",
 		"cname_target_other_family_only", "self_exception", "type_exception", "other_qtype_on_addr_name", "two_addrs", "cname_chain_local",
 	}).Draw(t, "kind")
+	if c.Local && (c.Kind == "self_exception" || c.Kind == "type_exception") {
+		// an exception hands the name over to what would happen without the
+		// table; for a name of the DHCP server that is not the upstream, and
+		// the statement does not rank the two features
+		c.Kind = "cname_unknown_target"
+	}
 	rw := func(d, a string) *filtering.LegacyRewrite { return &filtering.LegacyRewrite{Domain: d, Answer: a} }
 	switch c.Kind {
 	case "addr_same_family":
@@ -145,12 +159,12 @@ func (c *vfC06Case) describe() (m map[string]any) {
 		tab = append(tab, r.Domain+" -> "+r.Answer)
 	}
 
-	return map[string]any{"kind": c.Kind, "table": tab, "query": fmt.Sprintf("%s %s", c.Qname, dns.Type(c.Qtype)), "upstream_reply": c.UpReply}
+	return map[string]any{"kind": c.Kind, "local_domain_with_dhcp": c.Local, "table": tab, "query": fmt.Sprintf("%s %s", c.Qname, dns.Type(c.Qtype)), "upstream_reply": c.UpReply}
 }
 
 // vfC06Check runs the case and returns an error describing the first deviation.
 func vfC06Check(c *vfC06Case) (err error) {
-	w, werr := vfNewWorld(&vfWorldConf{ProtectionEnabled: true, FilteringEnabled: true, Rewrites: c.Table, BlockedTTL: 10})
+	w, werr := vfNewWorld(&vfWorldConf{ProtectionEnabled: true, FilteringEnabled: true, Rewrites: c.Table, BlockedTTL: 10, DHCPEnabled: c.Local})
 	if werr != nil {
 		return fmt.Errorf("VERIF-INCONCLUSIVE world: %w", werr)
 	}
@@ -173,7 +187,11 @@ func vfC06Check(c *vfC06Case) (err error) {
 		}
 	}
 
-	o := w.run(vfQuery{Name: c.Qname + ".", Qtype: c.Qtype, Addr: netip.MustParseAddrPort("198.18.0.3:999")})
+	client := "198.18.0.3:999"
+	if c.Local {
+		client = "192.168.1.5:999"
+	}
+	o := w.run(vfQuery{Name: c.Qname + ".", Qtype: c.Qtype, Addr: netip.MustParseAddrPort(client)})
 	if o.Err != nil || o.BeforeErr != nil || o.Res == nil {
 		return fmt.Errorf("request failed: before=%v err=%v", o.BeforeErr, o.Err)
 	}
